@@ -40,7 +40,7 @@ def serve():
             continue
         req = json.loads(line)
         case = req["case"]
-        world = MPI.World(int(case["size"]), case.get("tape", []))
+        world = MPI.World(int(case["size"]), case.get("tape", []), case.get("nodes"))
         MPI.set_world(world)
         wl._EXEC_LOG.clear()
 
